@@ -4,6 +4,8 @@ CONSTANTS
   MaxRowLen = 2
   MaxRows = 2
   MaxLenAscii = 5
+  Kinds <- AllKinds
+  Preds <- AllPreds
 INVARIANT RoundTrip
 CONSTRAINT Emit
 CHECK_DEADLOCK FALSE
